@@ -104,6 +104,7 @@ def describe(text, interner):
         except ValueError:
             gf = False
     d["gf"] = gf
+    d["fw"] = fw_request(text)
     t = version_tuple(text)
     d["vok"] = t is not None and t[:2] >= (1, 4)
     d["vfl"] = version_floor(text) if d["vok"] else "1.4"
@@ -112,6 +113,25 @@ def describe(text, interner):
     else:
         d["vclear"] = True
     return d
+
+
+def fw_request(text):
+    """Lexical view of a firmware (config) request payload: little-endian 16-bit words in hex."""
+    r = {"wf5": False, "wf3": False, "t": 0, "v": 0, "blk": 0}
+    try:
+        raw = binascii.unhexlify(text)
+    except (binascii.Error, ValueError, TypeError):
+        return r
+    words = [raw[i] | (raw[i + 1] << 8) for i in range(0, len(raw) - 1, 2)]
+    if len(raw) == 10:
+        r["wf5"] = True
+    if len(raw) == 6:
+        r["wf3"] = True
+    if len(words) >= 2:
+        r["t"], r["v"] = words[0], words[1]
+    if len(words) >= 3:
+        r["blk"] = words[2]
+    return r
 
 
 def clamp_int(v):
